@@ -13,7 +13,30 @@ import (
 // ssaCallName: canonical name of a call's callee (static function, or interface method).
 func ssaCallName(cc *ssa.CallCommon) string {
 	if cc.IsInvoke() {
-		return cc.Method.FullName()
+		name := ifaceMethodName(cc.Value.Type(), cc.Method)
+		// a module interface that only narrows another one: named after the interface its values come from (devirt.go)
+		if !knownIfaceMethods[name] && curWorld != nil {
+			j := cc.Value.Type()
+			for hop := 0; hop < 4; hop++ {
+				from, conc := curWorld.ifaceFlow(j)
+				if from != nil {
+					if obj, _, _ := types.LookupFieldOrMethod(from, false, cc.Method.Pkg(), cc.Method.Name()); obj != nil {
+						if mf, ok := obj.(*types.Func); ok {
+							name = ifaceMethodName(from, mf)
+							j = from
+							continue
+						}
+					}
+				}
+				if conc != nil {
+					if m := curWorld.prog.LookupMethod(conc, cc.Method.Pkg(), cc.Method.Name()); m != nil {
+						name = funcName(m)
+					}
+				}
+				break
+			}
+		}
+		return name
 	}
 	if sc := cc.StaticCallee(); sc != nil {
 		return funcName(sc)
